@@ -12,8 +12,10 @@ the handle is open; every state reachable from `New` is (`reachable_in_step`).
 All theorems quantify over every configuration (`MaxSize`, `MaxBackups` any naturals), every initial directory
 (pre-existing current file and backups, gaps, files beyond `MaxBackups`, files larger than `MaxSize`) and every history
 of `Write`/`Close`/re-open/`Sync`.  Concurrency: the section "concurrent goroutines" runs the same methods as micro-step
-programs on the generic mutex machine (`Model/Mutex.lean`) and proves the clause about concurrent writers for every
-schedule; the only thing left to the check's assumptions is that the Go code brackets every method with the mutex. -/
+programs on the generic mutex machine (`Model/Mutex.lean`), in which every call is bracketed by Lock/Unlock by
+construction, and proves the clause about concurrent writers for every schedule OF THAT MACHINE.  That the Go code
+brackets every method with the mutex is not proved (the theorems stay true if a Lock is deleted from rotator.go); it is
+an assumption of the check, tied to the code only by its `stress` oracle with and without the race detector. -/
 namespace C12
 open Rot
 
